@@ -19,8 +19,21 @@
 (* kinds (the first kind's dump is remembered in `dump`).                  *)
 (***************************************************************************)
 EXTENDS Reader, TLC, Json, IOUtils
-VARIABLES l, kind, dump
+(* The recorded buffer and the parse dump are NOT kept in the state: TLC   *)
+(* handles a 4096-element tuple in every state very slowly (measured:      *)
+(* 45 ms/state).  The state holds the index of the event that defined them *)
+(* instead (ri, di); Reader's variable `buf` stays <<>> and the thin        *)
+(* wrapper `Do` of Reader.tla is restated as TDo over TBuf -- Enabled and   *)
+(* Step, i.e. the whole semantics, are Reader's.                            *)
+VARIABLES l,     \* next event
+          ri,    \* index of the Reset / Section event that loaded the current buffer
+          di,    \* index of the first Parse event of the current input
+          kind
 Rec == ndJsonDeserialize(IOEnv.TRACE)
+TBuf == IF ri = 0 THEN <<>> ELSE Rec[ri].buf
+TDo(o) == /\ Enabled(TBuf, hs, o)
+          /\ LET x == Step(TBuf, le, hs, o) IN hs' = x.hs /\ res' = x.res
+          /\ UNCHANGED <<buf, le>>
 
 Refcounted == {"EndianRcSlice", "EndianArcSlice", "EndianReaderCustom", "RelocateRc"}
 
@@ -33,52 +46,52 @@ IsEv(e) == l <= Len(Rec) /\ Rec[l].ev = e /\ l' = l + 1
 
 Reset == /\ IsEv("Reset")
          /\ LET r == Rec[l] IN
-            /\ buf' = r.buf /\ le' = r.le /\ hs' = InitHs(r.buf, r.mh) /\ res' = OkUnit
+            /\ ri' = l /\ le' = r.le /\ buf' = buf /\ hs' = InitHs(r.buf, r.mh) /\ res' = OkUnit
             /\ kind' = r.kind
             /\ r.p = CProj(r.buf, RootW(r.buf))
             /\ (r.kind \in Refcounted => r.refs = 2)
-         /\ UNCHANGED dump
+         /\ UNCHANGED di
 
 TraceOp(name) ==
     /\ IsEv(name)
+    /\ UNCHANGED <<ri, di, kind>>
     /\ LET r == Rec[l]
            o == O(r.o[1], r.o[2], r.o[3], r.o[4], r.o[5]) IN
        /\ o.op = name
-       /\ Do(o)
+       /\ TDo(o)
        /\ r.r = CRes(res')
-       /\ r.ph = (IF o.h = 0 THEN <<>> ELSE CProj(buf, hs'[o.h]))
-       /\ r.pd = (IF o.d = 0 THEN <<>> ELSE CProj(buf, hs'[o.d]))
+       /\ r.ph = (IF o.h = 0 THEN <<>> ELSE CProj(TBuf, hs'[o.h]))
+       /\ r.pd = (IF o.d = 0 THEN <<>> ELSE CProj(TBuf, hs'[o.d]))
        /\ (kind \in Refcounted => r.refs = Refs(hs'))
-    /\ UNCHANGED <<kind, dump>>
 
 (* all readers dropped: no reference left, buffer freed exactly once *)
 Teardown == /\ IsEv("Teardown")
             /\ (kind \in Refcounted => Rec[l].td = <<0, 1>>)
-            /\ UNCHANGED <<rvars, kind, dump>>
+            /\ UNCHANGED <<ri, di, kind, rvars>>
 
 (*------------------------- whole-section parses --------------------------*)
 Section == /\ IsEv("Section")
-           /\ buf' = Rec[l].buf /\ kind' = Rec[l].kind
-           /\ UNCHANGED <<le, hs, res, dump>>
+           /\ ri' = l /\ kind' = Rec[l].kind
+           /\ UNCHANGED <<rvars, di>>
 (* a reader handed back by a parser is a zero-copy view of the section *)
 View == /\ IsEv("View")
         /\ LET r == Rec[l] IN
-           /\ 0 <= r.off /\ r.off + r.len <= Len(buf)
-           /\ r.bytes = CB(SubSeq(buf, r.off + 1, r.off + r.len))
+           /\ 0 <= r.off /\ r.off + r.len <= Len(TBuf)
+           /\ r.bytes = CB(SubSeq(TBuf, r.off + 1, r.off + r.len))
            /\ r.ptr = r.off /\ r.borrowed /\ r.idpos = r.off
-        /\ UNCHANGED <<rvars, kind, dump>>
-(* the dump of input `id` is the same under every reader kind *)
+        /\ UNCHANGED <<ri, di, kind, rvars>>
+(* the dump of one input is the same under every reader kind *)
 Parse == /\ IsEv("Parse")
          /\ LET r == Rec[l] IN
-            IF r.first THEN dump' = r.dump ELSE (r.dump = dump /\ dump' = dump)
-         /\ UNCHANGED <<rvars, kind>>
+            IF r.first THEN di' = l ELSE (di > 0 /\ r.dump = Rec[di].dump /\ di' = di)
+         /\ UNCHANGED <<ri, kind, rvars>>
 
-Init == /\ l = 1 /\ kind = "" /\ dump = <<>>
+Init == /\ l = 1 /\ ri = 0 /\ di = 0 /\ kind = ""
         /\ buf = <<>> /\ le = TRUE /\ hs = InitHs(<<>>, 1) /\ res = OkUnit
 Next == \/ Reset \/ Teardown \/ Section \/ View \/ Parse
         \/ \E name \in TraitOps \cup RangeOps : TraceOp(name)
 
-Inv == WindowInv /\ EmpInv
+Inv == (\A h \in DOMAIN hs : WindowOK(TBuf, hs[h])) /\ EmpInv
 
 Accepted == LET d == TLCGet("stats").diameter IN
             IF d - 1 = Len(Rec) THEN TRUE
